@@ -14,6 +14,15 @@ extern const struct sim_site *const __start_sim_sites[] __attribute__((weak));
 extern const struct sim_site *const __stop_sim_sites[] __attribute__((weak));
 }
 
+extern "C" {
+extern volatile int sim_atomic_depth;
+}
+struct AtomicScope {
+    int saved;
+    AtomicScope() : saved(sim_atomic_depth) { sim_atomic_depth = saved + 1; }
+    ~AtomicScope() { sim_atomic_depth = saved; }
+};
+
 namespace sim {
 namespace alloc {
 
@@ -271,6 +280,7 @@ static void do_free(void *p, const struct sim_site *s) {
 }
 
 void release(void *p) {
+    AtomicScope a;
     static const struct sim_site harness_site = {"harness", "harness_release", 0, 3};
     do_free(p, &harness_site);
 }
@@ -301,12 +311,20 @@ std::string sites_json() {
 } // namespace sim
 
 extern "C" {
-void *sim_malloc_at(size_t n, const struct sim_site *s) { return sim::alloc::do_malloc(n, s); }
-void *sim_calloc_at(size_t a, size_t b, const struct sim_site *s) {
-    return sim::alloc::do_calloc(a, b, s);
+void *sim_malloc_at(size_t n, const struct sim_site *s) {
+    AtomicScope a;
+    return sim::alloc::do_malloc(n, s);
+}
+void *sim_calloc_at(size_t a_, size_t b, const struct sim_site *s) {
+    AtomicScope a;
+    return sim::alloc::do_calloc(a_, b, s);
 }
 void *sim_realloc_at(void *p, size_t n, const struct sim_site *s) {
+    AtomicScope a;
     return sim::alloc::do_realloc(p, n, s);
 }
-void sim_free_at(void *p, const struct sim_site *s) { sim::alloc::do_free(p, s); }
+void sim_free_at(void *p, const struct sim_site *s) {
+    AtomicScope a;
+    sim::alloc::do_free(p, s);
+}
 }
